@@ -487,6 +487,7 @@ def tlc_validate(ctx, recs, tag):
         vlib.write_ndjson(fr, sh)
         r = ctx.tlc("C15Trace", "C15Trace.cfg", env={"VERIF_RECS": fr}, workers=vlib.NCPU, heap="12g", timeout=3000, tag=stag)
         got = None
+        nb0 = len(bad)
         for l in r["printed"]:
             m = re.match(r'<<"BAD", (\d+), "([^"]*)", (-?\d+)>>', l)
             if m:
@@ -497,6 +498,7 @@ def tlc_validate(ctx, recs, tag):
             m = re.match(r'<<"CHECKED", (\d+)>>', l)
             if m:
                 got = int(m.group(1))
+        vlib.expect_bad(r, len(bad) - nb0, "C15Trace")
         if got is None or r["error"] or r["rc"] != 0:
             raise vlib.MachineryError("TLC validation failed (rc=%s)\n%s" % (r["rc"], r["out"][-4000:]))
         checked += got
